@@ -22,6 +22,7 @@ type seed struct {
 }
 
 var seeds = []seed{
+	{"byteSliceAsUint64Slice converts the pointer of an empty slice", "UNS2", "serialization_littleendian.go", "\tif len(slice) == 0 {\n\t\t// nothing to view: the (possibly shorter) allocation behind an empty slice must not be\n\t\t// reinterpreted as a wider element\n\t\treturn nil\n\t}\n\tptr := unsafe.SliceData(slice)\n\treturn unsafe.Slice((*uint64)", "\tptr := unsafe.SliceData(slice)\n\tif ptr == nil {\n\t\treturn nil\n\t}\n\treturn unsafe.Slice((*uint64)", "byteSliceAsUint64Slice"},
 	{"RemoveRange clamps the end after comparing it with the start", "U6", "roaring.go", "\t\trangeEnd = uint64(0x100000000)\n\t\tif rangeStart >= rangeEnd {\n\t\t\t// the whole range lies beyond the 32-bit universe\n\t\t\treturn\n\t\t}\n", "\t\trangeEnd = uint64(0x100000000)\n", "RemoveRange|rangeStart narrowed"},
 	{"CardinalityInRange clamps the end after comparing it with the start", "U6", "roaring.go", "\t\tend = MaxUint32 + 1\n\t\tif start >= end {\n\t\t\t// the whole range lies beyond the 32-bit universe\n\t\t\treturn 0\n\t\t}\n", "\t\tend = MaxUint32 + 1\n", "CardinalityInRange|start narrowed"},
 	{"AddRange silently clamps its end instead of refusing it", "U6", "roaring.go", "\tif rangeEnd-1 > MaxUint32 {\n\t\tpanic(\"rangeEnd-1 > MaxUint32\")\n\t}\n\thbStart := uint32(highbits(uint32(rangeStart)))\n\tlbStart := uint32(lowbits(uint32(rangeStart)))\n\thbLast := uint32(highbits(uint32(rangeEnd - 1)))\n\tlbLast := uint32(lowbits(uint32(rangeEnd - 1)))\n\n\tvar max uint32 = maxLowBit\n\tfor hb := hbStart; hb <= hbLast; hb++ {", "\tif rangeEnd-1 > MaxUint32 {\n\t\trangeEnd = MaxUint32 + 1\n\t}\n\thbStart := uint32(highbits(uint32(rangeStart)))\n\tlbStart := uint32(lowbits(uint32(rangeStart)))\n\thbLast := uint32(highbits(uint32(rangeEnd - 1)))\n\tlbLast := uint32(lowbits(uint32(rangeEnd - 1)))\n\n\tvar max uint32 = maxLowBit\n\tfor hb := hbStart; hb <= hbLast; hb++ {", "AddRange|rangeStart narrowed"},
